@@ -98,6 +98,8 @@ fn main() {
             "C07" => vharness::checks::c07::run(tier),
             "C08" => vharness::checks::c08::run(tier),
             "C09" => vharness::checks::c09::run(tier),
+            "C12" => vharness::checks::c12::run(tier),
+            "C13" => vharness::checks::c13::run(tier),
             other => {
                 eprintln!("unknown check {other}");
                 2
